@@ -625,13 +625,25 @@ class Impl:
 # ------------------------------------------------------------------------------------------
 
 
+def batch_parallel(lines, workers=6):
+    """stateless driver batch, split over several driver processes (order preserved)"""
+    from concurrent.futures import ThreadPoolExecutor
+
+    if len(lines) < 2000:
+        return C.Driver().batch(lines) if lines else []
+    n = (len(lines) + workers - 1) // workers
+    chunks = [lines[i:i + n] for i in range(0, len(lines), n)]
+    with ThreadPoolExecutor(max_workers=workers) as ex:
+        parts = list(ex.map(lambda ch: C.Driver().batch(ch), chunks))
+    return [l for p in parts for l in p]
+
+
 def compare_steps(impl: Impl, cases, driver=None, stats=None):
     """cases: iterable of (AbsConn, sr, event[, label]).  Runs every case on both sides.
     Returns (n, disagreements, impl_results) ; stats (dict) collects the distribution."""
     cases = list(cases)
-    drv = driver or C.Driver()
     lines = [step_line(c[0], c[1], c[2]) for c in cases]
-    model = drv.batch(lines) if lines else []
+    model = driver.batch(lines) if driver else batch_parallel(lines)
     dis, results = [], []
     for case, ml in zip(cases, model):
         a, sr, ev = case[0], case[1], case[2]
@@ -938,7 +950,10 @@ def next_event(rng, a: AbsConn, now):
         return (sr, ("send", now, ("A", [(98, "0"), (108, str(a.hb))])), "send:Logon")
     if a.state in (6, 7) and r < 0.75:
         seq = ni if rng.random() < 0.7 else ni + rng.choice([1, 3])
-        return rx("Logon", "A", [(98, "0"), (108, str(a.hb))], seq)
+        body = [(98, "0"), (108, str(a.hb))]
+        if rng.random() < 0.08:
+            body = rng.choice([[(108, str(a.hb))], [(98, "0")], []])
+        return rx("Logon", "A", body, seq)
     # established (or hostile traffic before logon)
     k = rng.random()
     if r < 0.30:
